@@ -20,9 +20,13 @@ impl PanicInfo {
 }
 
 pub fn normalise(msg: &str) -> String {
+    // digits -> N, cut at the first ';' (what follows is usually input-dependent), 48 chars
     let mut out = String::new();
     let mut in_digits = false;
     for ch in msg.chars() {
+        if ch == ';' {
+            break;
+        }
         if ch.is_ascii_digit() {
             if !in_digits {
                 out.push('N');
@@ -30,13 +34,13 @@ pub fn normalise(msg: &str) -> String {
             }
         } else {
             in_digits = false;
-            if ch == '\n' {
+            if ch == '\n' || ch == '\t' || ch == '\r' {
                 out.push(' ');
             } else {
                 out.push(ch);
             }
         }
-        if out.len() >= 80 {
+        if out.chars().count() >= 48 {
             break;
         }
     }
